@@ -1466,14 +1466,17 @@ amax = max
 amin = min
 
 
-def cumsum(a):
+def cumsum(a, axis=None, dtype=None):
     a = asarray(a)
+    if axis not in (None, 0, -1) or (axis is not None and a.ndim != 1):
+        _unsupported("cumsum with axis on nd arrays")
     out = []
     acc = 0
     for v in a._flat():
         acc = acc + v
         out.append(acc)
-    return ndarray._new(out, (len(out),), a.dt if a.dt != 'bool' else 'int')
+    r = ndarray._new(out, (len(out),), a.dt if a.dt != 'bool' else 'int')
+    return r.astype(dtype) if dtype is not None else r
 
 
 def argmax(a, axis=None):
@@ -1590,6 +1593,35 @@ def broadcast_to(a, shape, subok=False):
     if len(a.shape) > len(shape) or _broadcast_shapes(a.shape, shape) != tuple(shape):
         raise ValueError("operands could not be broadcast together with remapped shapes [original->remapped]: %s and requested shape %s" % (a.shape, tuple(shape)))
     return ndarray._new(list(_broadcast_flat(a, shape)), shape, a.dt)
+
+
+def split(a, indices_or_sections, axis=0):
+    a = asarray(a)
+    if axis != 0:
+        _unsupported("split with axis != 0")
+    n = a.shape[0]
+    if isinstance(indices_or_sections, (int,)) and not isinstance(indices_or_sections, bool):
+        k = indices_or_sections
+        if k <= 0 or n % k != 0:
+            raise ValueError("array split does not result in an equal division")
+        cuts = [n // k * i for i in range(1, k)]
+    else:
+        cuts = [_index(x) for x in (indices_or_sections._flat() if isinstance(indices_or_sections, ndarray) else list(indices_or_sections))]
+    out = []
+    prev = 0
+    for c in cuts + [n]:
+        out.append(a[prev:c])
+        prev = c
+    return out
+
+
+def log2(x):
+    import math
+    if isinstance(x, ndarray):
+        return ndarray._new([log2(v) for v in x._flat()], x.shape, 'float')
+    if is_sym(x):
+        _unsupported("log2 of a symbolic value")
+    return math.log2(x) if x > 0 else (float('-inf') if x == 0 else float('nan'))
 
 
 def unravel_index(i, shape):
